@@ -197,6 +197,9 @@ inductive Op where
   | sort
   | sortBy (o : List Val)
   | replaceLeader (l m : Val)
+  /-- `group(d, k)` where an argument is `numpy.nan` (which is never stored): `is_equal(nan, nan)`
+      makes it a no-op, otherwise the membership assertion fails -/
+  | groupNan (d k : Arg)
 deriving DecidableEq, Repr, Inhabited
 
 /-- One operation of a history.  `sort`/`sort_by` return a new object which replaces the state;
@@ -215,6 +218,12 @@ def step (g : GL) : Op → GL × Option Err
     | .ok g' => (g', none)
     | .error e => (g, some e)
   | .replaceLeader l m => replaceLeader g l m
+  | .groupNan d k => match d, k with
+    | .val d, .val k => group g d k
+    | .nan, .nan => (g, none)
+    | .nan, .val _ => (g, some (.assertion "discarded not in list"))
+    | .val d, .nan => if d ∈ g.lst then (g, some (.assertion "kept not in list"))
+                      else (g, some (.assertion "discarded not in list"))
 
 /-- Run a history, ignoring (but recording) exceptions, as a caller catching them would. -/
 def run (g : GL) : List Op → GL
